@@ -46,10 +46,12 @@ SharedMem::SharedMem(const String& name, int size)
 	if(ftruncate(_handle, (off_t)_size) == -1)
 	{
 		_ptr = NULL;
+		close(_handle);
 		shm_unlink(_name);
 		return;
 	}
 	_ptr = (byte*)mmap(0, (size_t)size, PROT_READ | PROT_WRITE, MAP_SHARED, _handle, 0);
+	close(_handle); // the mapping keeps the segment alive; the descriptor was never closed (one leaked per object)
 	if(_ptr == MAP_FAILED)
 		_ptr = NULL;
 
